@@ -13,7 +13,7 @@ enum {
 	K_SPEC_TRUE_ROLLED_BACK, K_LIB_DRAWS, K_MEM_OPS, K_OTHER_PROP_FAIL, K_HANGS, K_STEPS_K, K_SWITCHES_K, K_COMMITTED,
 	K_GVT_OPEN_AT_STOP, K_STATS_RECORDS, K_RB_DIGESTS, K_LEFTOVER, K_BUDGET, K_EARLY_END,
 	K_RANKS, K_REMOTE_SENT, K_REMOTE_ANTI, K_EARLY_ANTI, K_EARLY_MATCH, K_REMOTE_ANTI_MATCHED, K_NET_DELAYED, K_NET_OVERTAKES,
-	K_NET_TEST_SKIPPED, K_NET_LEFTOVER, K_CROSS_RANK_REF, K_PRESET_TICK, K_PRESET_CASCADE, K_GVT_BOUND_BY_ANTI, K_ENDLESS, K_STATELESS_LPS
+	K_NET_TEST_SKIPPED, K_NET_LEFTOVER, K_CROSS_RANK_REF, K_PRESET_TICK, K_PRESET_CASCADE, K_GVT_BOUND_BY_ANTI, K_ENDLESS, K_STATELESS_LPS, K_PRESET_STORM
 };
 
 struct rt_cfg {
